@@ -27,10 +27,11 @@ func c17(tier string) {
 	ctx.Assumptions = []string{
 		"inputs are at most 64 KiB",
 		"nodeless documents judged by the positive oracle are JSON objects/arrays that json-gold flattens to an empty graph (scalars as top-level documents are only checked for absence of panics)",
-		"a per-case wall-clock watchdog (180 s, cases take milliseconds) reports hangs separately (key `hang`)",
+		"a per-case watchdog reports hangs separately (key `hang`): a call that has not returned after 180 s during which the process used less than 10 s of CPU is blocked; one that is still computing after 5 such windows does not terminate in any useful sense",
 	}
 	n := ctx.N(5000, 120000)
 	ctx.HangIsViolation = true
+	ctx.SpinIsViolation = true
 	if !ctx.IsShard() {
 		ctx.RunShards()
 		ctx.MinDistinct = 1000
